@@ -13,10 +13,16 @@
  *     https://opensource.org/licenses/BSD-3-Clause
  */
 
+#define _GNU_SOURCE /* asprintf */
+
 #include <assert.h>
+#include <inttypes.h>
 #include <stdint.h>
+#include <stdio.h>
 #include <stdlib.h>
 #include <string.h>
+
+#include "compat.h"
 
 #include "context.h"
 #include "dict.h"
@@ -62,7 +68,9 @@ struct xmlpr_ctx {
 static const char *
 xml_print_ns(struct xmlpr_ctx *pctx, const char *ns, const char *new_prefix, uint32_t prefix_opts)
 {
-    uint32_t i, j;
+    uint32_t i, j, k = 0;
+    char *uniq_prefix = NULL;
+    const char *prefix;
 
     for (i = pctx->ns.count; i > 0; --i) {
         if (!new_prefix) {
@@ -98,6 +106,28 @@ xml_print_ns(struct xmlpr_ctx *pctx, const char *ns, const char *new_prefix, uin
         }
     }
 
+    if (new_prefix && !(prefix_opts & LYXML_PREFIX_REQUIRED)) {
+        /* the prefix is only a suggestion, do not bind a prefix again that is bound to another namespace,
+         * the element being printed may be using it */
+        prefix = new_prefix;
+        do {
+            for (i = 0; i < pctx->ns.count; ++i) {
+                if (pctx->prefix.objs[i] && !strcmp(pctx->prefix.objs[i], prefix)) {
+                    break;
+                }
+            }
+            if (i < pctx->ns.count) {
+                free(uniq_prefix);
+                if (asprintf(&uniq_prefix, "%s%" PRIu32, new_prefix, ++k) == -1) {
+                    LOGMEM(pctx->ctx);
+                    return NULL;
+                }
+                prefix = uniq_prefix;
+            }
+        } while (i < pctx->ns.count);
+        new_prefix = prefix;
+    }
+
     /* suitable namespace not found, must be printed */
     ly_print_(pctx->out, " xmlns%s%s=\"", new_prefix ? ":" : "", new_prefix ? new_prefix : "");
     lyxml_dump_text(pctx->out, ns, 1);
@@ -105,7 +135,11 @@ xml_print_ns(struct xmlpr_ctx *pctx, const char *ns, const char *new_prefix, uin
 
     /* and added into namespaces */
     if (new_prefix) {
-        LY_CHECK_RET(lydict_insert(pctx->ctx, new_prefix, 0, &new_prefix), NULL);
+        if (lydict_insert(pctx->ctx, new_prefix, 0, &new_prefix)) {
+            free(uniq_prefix);
+            return NULL;
+        }
+        free(uniq_prefix);
     }
     LY_CHECK_RET(ly_set_add(&pctx->prefix, (void *)new_prefix, 1, NULL), NULL);
     LY_CHECK_RET(ly_set_add(&pctx->ns, (void *)ns, 1, &i), NULL);
